@@ -33,6 +33,7 @@ type scheduler struct {
 	fatal    interface{} // engine or target panic raised in a non-main thread
 	symbolic bool        // symbolic scheduling at yield points
 	preempt  int         // remaining preemptive switches
+	mapOrder int         // remaining map range statements whose start is a symbolic choice
 	switches int
 }
 
